@@ -92,6 +92,11 @@ Fixpoint vw_metric (w : vwriter) (os : list obs) (u : N) (ds : dims) (fl : flags
 (* ---- values ---- *)
 Inductive cont := CRef | CBox | CArc | CCow.
 
+(* ValueFormatter liftings (value/formatter.rs): the blanket impls for &V, Option<V>, Box<V>, Arc<V>, Cow<V> *)
+Inductive lift := LRef | LSome | LNone | LBox | LArc | LCow.
+Fixpoint reaches (ls : list lift) : bool :=
+  match ls with [] => true | LNone :: _ => false | _ :: r => reaches r end.
+
 Inductive wvalue :=
 | PlainV (c : vcall)                  (* user value: performs exactly this call; VNone = no call; VPanic = panics *)
 | ContV (k : cont) (v : wvalue)       (* &T, Box<T>, Arc<T>, Cow<T>  (value/mod.rs) *)
@@ -100,7 +105,10 @@ Inductive wvalue :=
 | WithDimsV (v : wvalue) (d : dims)   (* WithDimensions<V, N>  and the private Wrapper<V> *)
 | ForceV (v : wvalue) (f : flagv)     (* ForceFlag<V, FLAGS> *)
 | GDimsV (v : wvalue) (d : dims)      (* private ValueWrapper of WithGlobalDimensions *)
-| DynV (v : wvalue).                  (* private ValueFromDyn(&ValueToDyn(v)) of BoxEntry *)
+| DynV (v : wvalue)                   (* private ValueFromDyn(&ValueToDyn(v)) of BoxEntry *)
+| FormattedV (ls : list lift) (c : vcall)  (* FormattedValue<T, F> where T = ls (outermost first) over a base type whose
+                                              formatter F performs call c: Option = None stops, the others deref *)
+| ToStringV (s : str).                (* FormattedValue<T, ToString, NotLifted>: writer.string(&value.to_string()) *)
 
 Fixpoint vwrite (v : wvalue) (w : vwriter) : vcall :=
   match v with
@@ -116,6 +124,17 @@ Fixpoint vwrite (v : wvalue) (w : vwriter) : vcall :=
   | ForceV v' f => vwrite v' (VWForce w f)
   | GDimsV v' d => vwrite v' (VWGDims w d)
   | DynV v' => vwrite v' (VWDyn w)
+  | FormattedV ls c =>
+      if reaches ls then
+        match c with
+        | VNone => VNone
+        | VString s => vw_string w s
+        | VError e => vw_error w e
+        | VMetric os u ds fl => vw_metric w os u ds fl
+        | VPanic => VPanic
+        end
+      else VNone
+  | ToStringV s => vw_string w s
   end.
 
 (* ---- EntryWriter wrapper objects ---- *)
